@@ -22,6 +22,14 @@ def sh(cmd, cwd=None, timeout=3000):
 def failing(out):
     return sorted(set(re.findall(r"^--- FAIL: (\S+)", out, re.M)) | set(re.findall(r"^\s+--- FAIL: (\S+)", out, re.M)))
 
+# tests the pinned baseline (/root/.vp/BASELINE.json) lists as always failing or flaky on the unchanged tree
+_b = json.load(open("/root/.vp/BASELINE.json"))
+def _names(v):
+    if isinstance(v, str):
+        import ast
+        v = ast.literal_eval(v)
+    return {x.split("::")[1].split("/")[0] for x in v}
+UNSTABLE = _names(_b.get("always_fail", [])) | _names(_b.get("flaky", []))
 res = dict(id=ID, m=MN, patch=os.path.basename(patch), steps=[])
 os.makedirs("/tmp/confirm", exist_ok=True); os.makedirs(CACHE, exist_ok=True)
 sh("git -C /repo worktree remove --force %s" % WT)
@@ -55,7 +63,8 @@ try:
         ok = True
         for f, d, _ in placed:
             names = re.findall(r"^func (Test\w+)\(", open(os.path.join(D, f)).read(), re.M)
-            rc, out = sh("go test -vet=off -count=1 -run '^(%s)$' ./%s/" % ("|".join(names), d[len("utils/"):]), cwd=os.path.join(WT, "utils"), timeout=1500)
+            race = "-race " if re.search(r"go test[^\n]*-race", open(os.path.join(D, f)).read()) else ""  # the demo's own header asks for the race detector
+            rc, out = sh("go test -vet=off -count=1 %s-run '^(%s)$' ./%s/" % (race, "|".join(names), d[len("utils/"):]), cwd=os.path.join(WT, "utils"), timeout=1500)
             outs[f] = dict(rc=rc, tail=out[-1500:])
             ok = ok and rc == 0
         return ok, outs
@@ -99,6 +108,7 @@ try:
             # flaky tests exist in this suite: retry once
             rc2, out2 = sh("go test -vet=off -count=1 -timeout 20m -run '^(%s)$' ./%s/" % ("|".join(x.split("/")[0] for x in extra), rel), cwd=os.path.join(WT, "utils"))
             extra = sorted(set(failing(out2)) - base)
+        extra = [x for x in extra if x.split("/")[0] not in UNSTABLE]
         newfails[rel] = dict(baseline_failures=sorted(base), new_failures=extra, build_ok=("[build failed]" not in out1))
     res["existing_tests"] = newfails
     res["existing_tests_pass"] = all(not v["new_failures"] and v["build_ok"] for v in newfails.values())
